@@ -280,7 +280,7 @@ func seqRun(c *Ctx, kind, codec string, limit int, wire []byte, carry0 int, spar
 // c17Mux: the codecs behind the stream that drives them (streamHTTP.readMsg's look-ahead
 // buffer) with receive limits far below the read buffer: what the handler receives is what
 // was sent, and the stream ends.
-func c17Mux(c *Ctx) {
+func c17Mux(c *Ctx, prop string) {
 	for _, limit := range []int{4, 8, 16, 100} {
 		sfx, err := newStreamFx(larking.MaxReceiveMessageSizeOption(limit))
 		if err != nil {
@@ -304,7 +304,7 @@ func c17Mux(c *Ctx) {
 				select {
 				case <-done:
 				case <-time.After(3 * time.Second):
-					c.SpecFail("mux-body", in, "the handler is still receiving after 3 s", "the stream ends", "C17/mux-body/endless", "the chunk stream never reports its end")
+					c.SpecFail("mux-body", in, "the handler is still receiving after 3 s", "the stream ends", prop+"/mux-body/endless", "the chunk stream never reports its end")
 					return
 				}
 				var all []byte
@@ -315,7 +315,7 @@ func c17Mux(c *Ctx) {
 				}
 				sfx.mu.Unlock()
 				if pn != nil || rec.Code != 200 || !bytes.Equal(all, body) {
-					c.SpecFail("mux-body", in, fmt.Sprintf("%d, %d chunks, %d bytes %x panic=%v", rec.Code, n, len(all), trunc(all, 40), pn), fmt.Sprintf("%d bytes %x", len(body), trunc(body, 40)), "C17/mux-body/sequence", "the chunks handed to the handler are not the bytes that were sent")
+					c.SpecFail("mux-body", in, fmt.Sprintf("%d, %d chunks, %d bytes %x panic=%v", rec.Code, n, len(all), trunc(all, 40), pn), fmt.Sprintf("%d bytes %x", len(body), trunc(body, 40)), prop+"/mux-body/sequence", "the chunks handed to the handler are not the bytes that were sent")
 				}
 			}
 		}
@@ -366,7 +366,7 @@ func c17MuxLookahead(c *Ctx) {
 }
 
 func runC17(c *Ctx) {
-	c17Mux(c)
+	c17Mux(c, "C17")
 	c17MuxLookahead(c)
 	c.Rule("per codec (proto, json, body chunker, readAll): message sequences of 0..4 messages over boundary sizes, every composition of short wires (<= 9 bytes quick, <= 12 thorough) into reads and sampled schedules of long ones, EOF with the last data or separately, initial carry 0..3 bytes and spare capacity {0,1,2,5,64,512}, limits around each message size, all 1..10-byte length prefixes incl. 2^63 and 2^64-1, every truncation offset. Each ReadNext call is corresponded with the model on the recorded schedule; the sequence-level oracle compares what was read with what was written. Non-trivial: non-empty wire; distinct by kind+input.")
 	c.Assume("readers obey io.Reader (never (0,nil) forever); limit > 0 as the mux passes it")
@@ -534,7 +534,30 @@ func runC17(c *Ctx) {
 	}
 	for i := 0; i < c.N(300, 3000); i++ {
 		a, b := c.Rng.Intn(5000), c.Rng.Intn(10000)
-		c.Correspond("growcap", join("growcap", strconv.Itoa(a), strconv.Itoa(b)), strconv.Itoa(larking.VerifGrowcap(a, b)), true)
+		if i%3 == 0 { // the band in which the growth loop needs more than one step
+			a = 1024 + c.Rng.Intn(4000)
+			b = a + a/4 + c.Rng.Intn(a-a/4+1)
+		}
+		g := larking.VerifGrowcap(a, b)
+		c.Correspond("growcap", join("growcap", strconv.Itoa(a), strconv.Itoa(b)), strconv.Itoa(g), true)
+		if g < b && b > a { // what ReadNext relies on: the grown capacity holds the wanted length
+			c.SpecFail("growcap", fmt.Sprintf("growcap(%d, %d)", a, b), strconv.Itoa(g), "at least the wanted capacity", "C17/growcap/too-small", "the grown capacity is smaller than what was asked for: ReadNext slices past it")
+		}
+	}
+	// a message larger than a big carried buffer: between 1.25 and 2 times its capacity
+	for _, capc := range []int{1024, 1500, 4096} {
+		for _, size := range []int{capc*5/4 + 1, capc * 3 / 2, capc*2 - 1, capc * 2, capc*2 + 1} {
+			m := make([]byte, size)
+			c.Rng.Read(m)
+			wire := append(protowire.AppendVarint(nil, uint64(size)), m...)
+			cs := rnCase{codec: "proto", limit: 1 << 20, spare: capc, wire: wire, sched: []int{3, capc / 2, 7}, eofWithData: c.Rng.Intn(2) == 0}
+			out := runReadNext(cs)
+			in := fmt.Sprintf("proto message of %d bytes into an empty buffer of capacity %d", size, capc)
+			c.Eval("proto-grow", in, true)
+			if out.panicked || out.err != nil || out.n != size || !bytes.Equal(out.dst[:min(out.n, len(out.dst))], m) {
+				c.SpecFail("proto-grow", in, truncS(out.line, 120), "the message", "C17/proto/grow", "a message that needs the buffer to grow is not returned (panic or wrong bytes)")
+			}
+		}
 	}
 }
 
